@@ -684,6 +684,9 @@ impl TxPoolService {
 
         let (tip_hash, rtx, status, fee, tx_size) = try_or_return_with_snapshot!(ret, snapshot);
 
+        #[cfg(feature = "verif-hooks")]
+        crate::verif::gate("process_tx:after-pre-check");
+
         let verify_cache = self.fetch_tx_verify_cache(&tx).await;
         let max_cycles = declared_cycles.unwrap_or_else(|| self.consensus.max_block_cycles());
         let tip_header = snapshot.tip_header();
@@ -715,6 +718,11 @@ impl TxPoolService {
         }
 
         let entry = TxEntry::new(rtx, verified.cycles, fee, tx_size);
+
+        // verif hook: the transaction is resolved and verified against the tip seen by
+        // `pre_check`; the chain may move before the entry is submitted under the write lock
+        #[cfg(feature = "verif-hooks")]
+        crate::verif::gate("process_tx:before-submit-entry");
 
         let (ret, submit_snapshot) = self.submit_entry(tip_hash, entry, status).await;
         try_or_return_with_snapshot!(ret, submit_snapshot);
